@@ -6,8 +6,15 @@ import itertools
 
 STYLE_NAMES = ["name", "userName", "user_name", "user-name", "X-Req-Id", "id", "type", "class", "date", "field", "2fa", "_x"]
 
-TGT = {"type": "object", "required": ["id"], "properties": {"id": {"type": "integer"}, "label": {"type": "string"}}}
+# target of reference-valued properties: has a renamed (camelCase) property so that wire keys matter in nested positions.
+# each container kind gets its OWN target schema, so that the converter meets it only through that container
+TGT = {"type": "object", "required": ["id"], "properties": {"id": {"type": "integer"}, "displayName": {"type": "string"}}}
+TARGETS = ["Tgt", "TgtArr", "TgtMap", "TgtMapArr", "TgtNull", "TgtUnion"]
 REF_TGT = {"$ref": "#/components/schemas/Tgt"}
+
+
+def _ref(n):
+    return {"$ref": "#/components/schemas/" + n}
 
 # kind -> (schema, default value or None, instances [typical, typical, edge])
 KINDS = {
@@ -33,17 +40,20 @@ KINDS = {
     "arr-integer": ({"type": "array", "items": {"type": "integer"}}, None, [[1], [1, 2], []]),
     "arr-datetime": ({"type": "array", "items": {"type": "string", "format": "date-time"}}, None,
                      [["2020-01-02T03:04:05Z"], ["2020-01-02T03:04:05Z", "2021-01-02T03:04:05Z"], []]),
-    "arr-ref": ({"type": "array", "items": REF_TGT}, None, [[{"id": 1}], [{"id": 1, "label": "l"}, {"id": 2}], []]),
+    "arr-ref": ({"type": "array", "items": _ref("TgtArr")}, None, [[{"id": 1}], [{"id": 1, "displayName": "l"}, {"id": 2}], []]),
     "map-string": ({"type": "object", "additionalProperties": {"type": "string"}}, None, [{"k": "v"}, {"a": "b", "c": "d"}, {}]),
-    "map-ref": ({"type": "object", "additionalProperties": REF_TGT}, None, [{"k": {"id": 1}}, {"a": {"id": 1}, "b": {"id": 2, "label": "l"}}, {}]),
-    "ref": (REF_TGT, None, [{"id": 1}, {"id": 2, "label": "l"}, {"id": 0}]),
+    "map-ref": ({"type": "object", "additionalProperties": _ref("TgtMap")}, None,
+                [{"k": {"id": 1, "displayName": "n"}}, {"a": {"id": 1}, "b": {"id": 2, "displayName": "l"}}, {}]),
+    "map-arr-ref": ({"type": "object", "additionalProperties": {"type": "array", "items": _ref("TgtMapArr")}}, None,
+                    [{"k": [{"id": 1, "displayName": "n"}]}, {"a": [], "b": [{"id": 2}, {"id": 3, "displayName": "l"}]}, {}]),
+    "ref": (REF_TGT, None, [{"id": 1}, {"id": 2, "displayName": "l"}, {"id": 0}]),
     "nullable-string": ({"type": "string", "nullable": True}, None, ["a", None, ""]),
-    "nullable-ref": ({"allOf": [REF_TGT], "nullable": True}, None, [{"id": 1}, None, {"id": 2, "label": "x"}]),
+    "nullable-ref": ({"allOf": [_ref("TgtNull")], "nullable": True}, None, [{"id": 1}, None, {"id": 2, "displayName": "x"}]),
     "type-list-null": ({"type": ["string", "null"]}, None, ["a", None, "b"]),
     "free-object": ({"type": "object"}, None, [{"a": 1}, {"b": {"c": [1, 2]}}, {}]),
     "inline-object": ({"type": "object", "properties": {"x": {"type": "integer"}, "y": {"type": "string"}}}, None,
                       [{"x": 1}, {"x": 2, "y": "s"}, {}]),
-    "oneof-ref-string": ({"oneOf": [REF_TGT, {"type": "string"}]}, None, [{"id": 1}, "s", {"id": 2, "label": "l"}]),
+    "oneof-ref-string": ({"oneOf": [_ref("TgtUnion"), {"type": "string"}]}, None, [{"id": 1}, "s", {"id": 2, "displayName": "l"}]),
     "any": ({}, None, [1, "s", {"a": [1]}]),
 }
 
@@ -92,6 +102,23 @@ def pairs(tier):
     return out
 
 
+COLLISION_FAMILIES = [("userName", "user_name", "user_name_2"), ("a-b", "a_b", "a_b_2"), ("addressLine", "address_line", "address_line_2"),
+                      ("Class", "class", "class__2")]
+
+
+def collisions(tier):
+    """property names that collide after derivation, plus the name the de-collision would invent; every required pattern"""
+    out = []
+    for fam in COLLISION_FAMILIES:
+        for mask in range(8):
+            out.append({"fields": [{"name": n, "kind": ["string", "integer", "boolean"][i], "required": bool(mask >> i & 1), "default": False}
+                                   for i, n in enumerate(fam)]})
+        for mask in range(4):
+            out.append({"fields": [{"name": n, "kind": ["string", "integer"][i], "required": bool(mask >> i & 1), "default": False}
+                                   for i, n in enumerate(fam[:2])]})
+    return out
+
+
 def model_schema(case):
     props = {}
     req = []
@@ -110,7 +137,7 @@ def model_schema(case):
 
 def pack_doc(cases, prefix="M"):
     """one document with one model per case (M0..Mk) plus the shared Tgt; models are independent of one another"""
-    schemas = {"Tgt": TGT}
+    schemas = {t: TGT for t in TARGETS}
     for i, c in enumerate(cases):
         schemas[f"{prefix}{i}"] = model_schema(c)
     return {"openapi": "3.0.3", "info": {"title": "F", "version": "1"}, "paths": {}, "components": {"schemas": schemas}}
